@@ -109,6 +109,8 @@ def alias_of(p: GProg, d, v: int, form: str):
         return d.exec_nodes[ids[v]]
     if form == "tag":
         return f"t{v}"
+    if form == "substr":
+        return {0: "n0", 1: "xn0y", 2: "t0z"}.get(v, ids[v])
     return ids[v]
 
 
@@ -124,9 +126,10 @@ def cases(tier: str):
                     continue
                 falsies = [[]] + ([[["IN", list(path)] for (i, j, k, path) in es4 if k == "flag"][:1]] if any(k == "flag" for (_, _, k, _) in es4) else [])
                 for fz in range(len(falsies)):
-                    for form in (("id", "ref", "tag") if n <= (2 if q else 3) else ("id",)):
+                    for form in (("id", "ref", "tag", "substr") if n <= (2 if q else 3) else (("id", "substr") if n == 3 else ("id",))):
                         yield dict(n=n, es=es4, falsy_inputs=bool(fz), form=form, ydefault=(n >= 2 and off == 0), is_async=[None, True, False][(len(es) + n) % 3])
     yield dict(n=3, es=kinds_rotating([(0, 2), (1, 2)], 0), special="ambiguous_tag", form="id", ydefault=False, falsy_inputs=False, is_async=None)
+    yield dict(n=3, es=[], special="none_values", form="id", ydefault=False, falsy_inputs=False, is_async=None)
     yield dict(n=3, es=kinds_rotating([(0, 1), (1, 2)], 0), special="ellipsis", form="id", ydefault=True, falsy_inputs=False, is_async=None)
 
 
@@ -134,9 +137,56 @@ def check_original(acc, c, inst, label):
     run_op(acc, c, [label], inst, "call", None, ("ox",))
 
 
+def run_none_values(acc, c):
+    """None is a legal value: a constant None argument, a DAG parameter defaulting to None and a setup result that is None
+    are carried into the composed DAG like any other value (nothing is re-executed, nothing goes missing)."""
+    nodes = (GNode(setup=True, retnone=True, res="t"),
+             GNode(edges=(Edge(0, "pos"), Edge(-1, "pos")), res="t"),
+             GNode(edges=(Edge(1, "pos"), Edge(-2, "kw")), consts=(None,), res="m"))
+    p = GProg(nodes=nodes, mc=2, params=(("x", NODEFAULT), ("y", None)))
+    ids = p.ids()
+    src = p.source()
+    acc.cases += 1
+    inst = Instance(p)
+    check_original(acc, c, inst, "original before compose (runs the setup node)")
+    for I, O, vals, want in (([1], [2], [supplied(1)], {"n2": ((supplied(1), None), {"p1": None})}),
+                             ([X], [2], [supplied(X)], {"n1": ((None, supplied(X)), {}), "n2": (("TOK:n1", None), {"p1": None})}),
+                             ([X, -2], [1, 2], [supplied(X), "Y"], {"n1": ((None, supplied(X)), {}), "n2": (("TOK:n1", None), {"p1": "Y"})})):
+        acc.evaluations += 1
+        case = dict(c, I=I, O=O)
+        try:
+            comp = inst.d.compose("comp", [alias_of(p, inst.d, v, "id") for v in I], [ids[o] for o in O])
+        except Exception as e:  # noqa: BLE001
+            acc.violation(V("compose_refused", f"compose(I={I}, O={O}) with None-valued constants / defaults / setup results raised {e!r}"), case, (), None, src)
+            continue
+        res = H.run_controlled(lambda: comp(*vals))
+        if res.outcome != "return":
+            acc.violation(V("composed_call_failed", f"compose(I={I}, O={O}) then call raised {res.exc!r} (None-valued constant / default / setup result)", exc=type(res.exc).__name__), case, (), res.trace, src)
+            continue
+        ent = {e[1]: e for e in res.trace if e[0] == "enter"}
+        serial = next((e[2] for e in res.trace if e[0] == "enter"), 0)
+        if set(ent) != set(want):
+            acc.violation(V("composed_wrong_nodes", f"compose(I={I}, O={O}): entered {sorted(ent)}, expected exactly {sorted(want)} (the None-valued setup result is already computed)"), case, (), res.trace, src)
+            continue
+        for nid, (a, kw) in want.items():
+            a = tuple(Tok(x[4:], serial) if isinstance(x, str) and x.startswith("TOK:") else x for x in a)
+            e = ent[nid]
+            if tuple(e[5]) != a or e[6] != kw:
+                acc.violation(V("composed_wrong_arguments", f"compose(I={I}, O={O}): {nid} received {e[5]!r} {e[6]!r}, expected {a!r} {kw!r}"), case, (), res.trace, src)
+        acc.mark_nontrivial(("none_values", repr(I), repr(O)))
+    check_original(acc, c, inst, "original after composing")
+    acc.states += 3
+    acc.transitions += 3
+
+
 def run_one(acc, c):
+    if c.get("special") == "none_values":
+        return run_none_values(acc, c)
     n = c["n"]
     tags = {i: f"t{i}" for i in range(n)} if c["form"] == "tag" else {}
+    if c["form"] == "substr":
+        tags = {0: "t0", 1: "xn0y", 2: "t0z"}
+        tags = {k: v for k, v in tags.items() if k < n}
     if c.get("special") == "ambiguous_tag":
         tags = {0: "S", 1: "S"}
     p = make_prog(n, [tuple(e) for e in c["es"]], tags, c["ydefault"])
